@@ -143,6 +143,9 @@ class WalkRun:
                     self.fail('does_not_terminate', f'{y} yields for {total_nodes} nodes ever created', y)
                     break
                 # ---- monitors
+                if g is None or not hasattr(g, 'a'):
+                    self.fail('non_node_yielded', f'yield {y}: {g!r}', y)
+                    break
                 a = g.a
                 if a is None:
                     self.fail('dead_node_yielded', f'yield {y}: node has no AST', y)
